@@ -139,13 +139,19 @@ Definition P_Sort (s : lpairs node) : lpairs node := sort_outer s 1 (size (pv s)
 
 Inductive getres := GFound (i : nat) | GMissing | GPanic.
 
+Definition is_nil (k : bytes) : bool := match k with [] => true | _ => false end.
+Definition is_none (n : node) : bool := match n with NNone => true | _ => false end.
+
 Fixpoint linear_search (s : linked (pair node)) (key : bytes) (i fuel : nat) : getres :=
   match fuel with
   | O => GMissing
   | S f =>
     if size s <=? i then GMissing
     else match At s i with
-         | Some (_, k, _) => if bytes_eqb k key then GFound i else linear_search s key (S i) f
+         | Some (h, k, c) =>
+           (* n.Key == key && !(key == "" && n.hash == 0 && n.Value.t == _V_NONE)   (fix 6c9aabd) *)
+           if bytes_eqb k key && negb (is_nil key && N.eqb h 0 && is_none c) then GFound i
+           else linear_search s key (S i) f
          | None => GPanic
          end
   end.
@@ -669,19 +675,19 @@ Definition op_add (val : node) (n : node) : obs * node :=
               end
        end.
 
-(* Move: translate logical positions to cells when some cell is unset *)
-Fixpoint move_translate (s : linked node) (i fuel : nat) (di si : Z) (dst src : nat) : nat * nat :=
+(* Move: translate logical positions to cells when some cell is unset; also returns the final counters di, si *)
+Fixpoint move_translate (s : linked node) (i fuel : nat) (di si : Z) (dst src : nat) : nat * nat * Z * Z :=
   match fuel with
-  | O => (dst, src)
+  | O => (dst, src, di, si)
   | S f =>
-    if size s <=? i then (dst, src)
+    if size s <=? i then (dst, src, di, si)
     else
       let ex := match At s i with Some c => exists_ c | None => false end in
       let di := if ex then (di - 1)%Z else di in
       let si := if ex then (si - 1)%Z else si in
       let '(dst, di) := if (di =? -1)%Z then (i, (di - 1)%Z) else (dst, di) in
       let '(src, si) := if (si =? -1)%Z then (i, (si - 1)%Z) else (src, si) in
-      if ((di =? -2) && (si =? -2))%Z then (dst, src)
+      if ((di =? -2) && (si =? -2))%Z then (dst, src, di, si)
       else move_translate s (S i) f di si dst src
   end.
 
@@ -691,10 +697,12 @@ Definition op_move (dst src : nat) (n : node) : obs * node :=
   else if negb (is_array n1) then (OErr EUnsupp, n1)
   else match unsafeArray n1 with
        | NArray l (Some s) =>
-         let '(dst', src') :=
-           if size s =? l then (dst, src)
-           else move_translate s 0 (size s) (Z.of_nat dst) (Z.of_nat src) dst src in
-         (OErr EOk, NArray l (Some (MoveOne s src' dst')))
+         if size s =? l then (OErr EOk, NArray l (Some (MoveOne s src dst)))
+         else
+           let '(dst', src', di, si) := move_translate s 0 (size s) (Z.of_nat dst) (Z.of_nat src) dst src in
+           (* a position beyond the live children: nothing to move (fix d346b1d) *)
+           if ((0 <=? di) || (0 <=? si))%Z then (OErr EOk, NArray l (Some s))
+           else (OErr EOk, NArray l (Some (MoveOne s src' dst')))
        | n2 => (OErr EPanic, n2)
        end.
 
